@@ -341,6 +341,7 @@ def locations(kind):
         out.insert(0, "PATH_INFO")
     if kind == "500":
         out.append("exception")
+    out.append("all")
     return out
 
 
@@ -357,15 +358,26 @@ def build_request(kind, loc, text):
         kw["method"] = text
     elif loc == "exception":
         message = "failed: " + text
+    elif loc == "all":
+        if kind != "debug-info":
+            kw["path"] = "/" + text
+        kw["query"] = "q=" + text
+        kw["headers"] = {h: text for h in HEADERS}
+        message = "failed: " + text
     else:
         kw["headers"] = {loc.split(":", 1)[1]: text}
+    if kind == "400-natural" and loc != "method":
+        kw.update(method="POST", content_type="application/json", body=b"{")
     return kw, message
 
 
-def excerpt(text, needle=MARK, width=160):
-    pos = text.find(needle)
-    return text[max(0, pos - width // 2):pos + width // 2] if pos >= 0 \
-        else text[:width]
+def excerpt(text, width=200):
+    for needle in ("<i id=MARK", "<I ID=MARK", 'onx="MARK', "ony='MARK",
+                   'ONX="MARK', MARK):
+        pos = text.find(needle)
+        if pos >= 0:
+            return text[max(0, pos - width // 2):pos + width // 2]
+    return text[:width]
 
 
 def judge(ctx, page, debug, loc, kind_name, payload, ans, base, replay):
@@ -384,7 +396,7 @@ def judge(ctx, page, debug, loc, kind_name, payload, ans, base, replay):
     if hits:
         ctx.violation("%s-on-%s" % (hits[0][0], page), dict(
             replay, status=ans.status, parsed=[list(h) for h in hits[:4]],
-            excerpt=excerpt(text, "id=MARK" if "id=MARK" in text else MARK)))
+            excerpt=excerpt(text)))
     elif base is not None and base[0] == ans.status and base[1] != skel:
         ctx.violation("structure-differs-on-%s" % page, dict(
             replay, status=ans.status, benign_skeleton=base[1][-300:],
@@ -395,7 +407,7 @@ def judge(ctx, page, debug, loc, kind_name, payload, ans, base, replay):
 def monitor(ctx, tree, real_pages):
     kinds = dict(KINDS)
     kinds.update(EXTRA_KINDS)
-    pages = list(PAGE_CODES) + ["500", "debug-info"]
+    pages = list(PAGE_CODES) + ["500", "debug-info", "400-natural"]
     for page in pages:
         for debug in (False, True):
             for loc in locations(page):
@@ -416,12 +428,14 @@ def monitor(ctx, tree, real_pages):
                     ans = call(app, environ(**kw))
                     replay = {"page": page, "debug": debug, "where": loc,
                               "payload": payload, "environ": {
-                                  k: v for k, v in kw.items() if v},
+                                  k: repr(v) if isinstance(v, bytes) else v
+                                  for k, v in kw.items() if v},
                               "handler": "default handler raising %s" % (
                                   "RuntimeError(%r)" % msg if page == "500"
                                   else "HTTPException(%s)" % PAGE_CODES.get(
                                       page)) if page not in (
-                                          "404", "debug-info") else None}
+                                          "404", "debug-info", "400-natural")
+                              else None}
                     text = judge(ctx, page, debug, loc, name, payload, ans,
                                  base, replay)
                     if text is not None and name in ("combined", "token") \
@@ -465,6 +479,21 @@ def monitor(ctx, tree, real_pages):
                              base_root if uri == "/" else None, replay)
                 if text is not None and host is None:
                     real_pages.append((("dir", debug, uri), text))
+    # natural 403: a directory without document_index
+    for debug in (False, True):
+        app = new_app(debug=debug, document_root=tree.root)
+        for uri in ["/d%s/" % n for n in tree.names]:
+            for host in [None] + list(KINDS.values()):
+                headers = {} if host is None else {"Host": host}
+                ans = call(app, environ(path=uri, headers=headers))
+                if ans.code != 403:
+                    ctx.notes.append("natural 403 scenario %r answered %s" % (
+                        uri, ans.status))
+                judge(ctx, "403-natural", debug, "uri:" + uri,
+                      "host=%r" % (host,), uri, ans, None,
+                      {"page": "403 (directory, document_index off)",
+                       "debug": debug, "path": uri, "Host": host,
+                       "document_root": "directory containing %r" % uri[1:-1]})
     # a listing of the same shape with harmless names: reference skeleton
     benign = Tree(["MARK%d" % i for i in range(len(tree.names))])
     try:
@@ -482,6 +511,53 @@ def monitor(ctx, tree, real_pages):
                     "skeleton": s1[-400:], "benign_skeleton": s2[-400:]})
     finally:
         benign.remove()
+
+
+def random_sweep(ctx, count):
+    """random pages, several locations at once, payloads assembled from the
+    marker pieces and markup characters"""
+    rng = ctx.rng
+    pieces = list(KINDS.values()) + list(EXTRA_KINDS.values()) + [
+        "<", ">", '"', "'", "&", "&#60;i id=MARK&#62;", "<i\tid=MARK>",
+        "<i/id=MARK>", "\\\"", "%3Ci id=MARK%3E", " ", "=", "/", "\u00e9",
+        "<svg onx=MARK>", "<a href='x' ony=MARK>"]
+    pages = list(PAGE_CODES) + ["500", "debug-info", "400-natural"]
+    for n in range(count):
+        page, debug = rng.choice(pages), rng.random() < 0.6
+        locs = rng.sample([x for x in locations(page)
+                           if x not in ("all", "method")], rng.randint(1, 3))
+        kw0, kw1, m0, m1 = None, None, "boom", "boom"
+        used = {}
+        for loc in locs:
+            payload = "".join(rng.choice(pieces)
+                              for _ in range(rng.randint(1, 4)))
+            if loc.startswith("header:"):
+                payload = payload.replace("\t", " ")
+            used[loc] = payload
+            a, ma = build_request(page, loc, MARK)
+            b, mb = build_request(page, loc, payload)
+            if kw0 is None:
+                kw0, kw1 = a, b
+            else:
+                for kw, src in ((kw0, a), (kw1, b)):
+                    if loc == "PATH_INFO":
+                        kw["path"] = src["path"]
+                    elif loc == "QUERY_STRING":
+                        kw["query"] = src["query"]
+                    else:
+                        kw["headers"].update(src["headers"])
+            if loc == "exception":
+                m0, m1 = ma, mb
+        ans0 = call(make_app(page, debug, m0), environ(**kw0))
+        t0 = body_text(ans0)
+        base = (ans0.status, observe(t0)[0]) if t0 is not None else None
+        ans = call(make_app(page, debug, m1), environ(**kw1))
+        judge(ctx, page, debug, "random:" + "+".join(sorted(used)),
+              "random#%d" % n, used, ans, base,
+              {"page": page, "debug": debug, "payloads": used,
+               "environ": {k: repr(v) if isinstance(v, bytes) else v
+                           for k, v in kw1.items() if v},
+               "exception_message": m1 if page == "500" else None})
 
 
 def header_name_probe(ctx):
@@ -546,6 +622,7 @@ def run(ctx):
     try:
         correspondence(ctx, tr, gen_ok and ok, tree, real_pages)
         monitor(ctx, tree, real_pages)
+        random_sweep(ctx, 400 if ctx.quick else 6000)
         header_name_probe(ctx)
         skeleton_tie(ctx, real_pages)
     finally:
@@ -557,8 +634,12 @@ def run(ctx):
         "HTTP_* headers incl. Host/Cookie/Referer/User-Agent/X-Forwarded-*, "
         "exception message, file and directory names, listed uri) x payload "
         "(element, double-quote and single-quote break-out, combined, and 9 "
-        "closing/upper-case/entity variants); SERVER_ADMIN absent; a case is "
-        "non-trivial when the marker text is reflected in the page",
+        "closing/upper-case/entity variants), all locations at once, natural "
+        "400/403/405, and a random sweep (1-3 locations, payloads assembled "
+        "from marker pieces and markup characters; 400 quick / 6000 "
+        "thorough); SERVER_ADMIN absent; a case is distinct by (page, debug, "
+        "location, payload kind) and non-trivial when the marker text is "
+        "reflected in the page",
         assumptions=[
             "taint table of harness/py2pages.py: request- and file-system-"
             "derived expressions Tainted, unknown expressions Tainted; "
